@@ -96,7 +96,7 @@ pub(crate) mod verif_proofs {
     }
 
     // ---- [C20.count] / [C20.null] maybenot_on_events on a real (machine-less) instance.
-    // BOUNDED: zero machines, batches of 0 or 1 event.  The instance is built from the crate's own
+    // BOUNDED: zero machines, two consecutive batches of 0 or 1 event.  The instance is built from the crate's own
     // parts; with zero machines the generator is
     // never asked for a word, and it is an all-zero value here (seeding goes through cpuid inline assembly
     // and pthread_atfork, which Kani cannot execute).  Instant::now is a system call: stubbed with a fixed instant.
@@ -131,6 +131,20 @@ pub(crate) mod verif_proofs {
             assert!(matches!(r, MaybenotResult::Ok), "[C20.count]");
             assert!(n == 0, "[C20.count] the count written equals the number of actions (none without machines)");
             assert!(n <= unsafe { maybenot_num_machines(this) }, "[C20.count]");
+        }
+        if which == 0 {
+            // [C20.batch] a second batch on the same instance: the framework is handed exactly the events of THIS
+            // batch, converted in order (nothing of an earlier batch is replayed)
+            let ev2 = MaybenotEvent { event_type: MaybenotEventType::PaddingSent, machine: kani::any() };
+            let n2: usize = kani::any();
+            kani::assume(n2 <= 1);
+            let r2 = unsafe { maybenot_on_events(this, &ev2, n2, actp, np) };
+            assert!(matches!(r2, MaybenotResult::Ok) && n == 0, "[C20.count]");
+            assert!(f.events_buf.len() == n2, "[C20.batch] the framework sees the events of this batch only");
+            if n2 == 1 {
+                assert!(matches!(f.events_buf[0], TriggerEvent::PaddingSent { machine } if machine.into_raw() == ev2.machine),
+                        "[C20.batch] converted in order");
+            }
         }
         kani::cover!(which == 0 && num_events == 0, "empty batch");
         kani::cover!(which == 0 && num_events == 1, "one event");
